@@ -93,12 +93,12 @@ type Sub struct {
 }
 
 type subMsg struct {
-	v      *Version
+	v *Version
 }
 
-func (s *Sub) Context() context.Context         { return context.Background() }
+func (s *Sub) Context() context.Context           { return context.Background() }
 func (s *Sub) Updates() <-chan nats.KeyValueEntry { return s.ch }
-func (s *Sub) Error() <-chan error              { return s.errs }
+func (s *Sub) Error() <-chan error                { return s.errs }
 func (s *Sub) Stop() error {
 	mu := &s.d.mu
 	if s.d.free {
@@ -238,6 +238,13 @@ func (d *Driver) deliver(s *Sub) {
 			}
 			s.lastSeq = v.Seq
 			d.logf("deliver sub%d i%d seq=%d op=%d", s.id, s.inst, v.Seq, v.Op)
+			// a late notification that no longer describes the key's latest message (the follower may
+			// legitimately believe it until it reads the key again)
+			if in := d.inst(s.inst); in != nil {
+				if last := d.store.Last(v.Key, d.now()); last != nil && last.Seq > v.Seq {
+					in.lastStaleEvtAt = d.now()
+				}
+			}
 			// probe: event naming another id delivered to a current leader
 			if in := d.inst(s.inst); in != nil && s.obj != nil && s.obj.el.IsLeader() && v.P.OK && v.P.ID != in.cfg.ID {
 				d.probe("foreign_event_to_leader")
